@@ -168,6 +168,60 @@ def _apply(root, edits):
     return None
 
 
+# Behaviour-preserving variants of lark that a maintainer might well write: the check of the property must stay SILENT on them.
+BENIGN = [
+    ('C12', 'cache-written-to-a-temporary-sibling-and-renamed', [R('lark/lark.py', "                    with FS.open(cache_fn, 'wb') as f:\n                        key = cache_sha256.encode('utf8')\n                        f.write(b'%s %d %s\\n' % (key, len(payload), sha256_digest(key + payload).encode('utf8')))\n                        f.write(payload)\n",
+                                                                    "                    tmp_fn = cache_fn + '.tmp%d' % os.getpid()\n                    with FS.open(tmp_fn, 'wb') as f:\n                        key = cache_sha256.encode('utf8')\n                        f.write(b'%s %d %s\\n' % (key, len(payload), sha256_digest(key + payload).encode('utf8')))\n                        f.write(payload)\n                    os.replace(tmp_fn, cache_fn)\n")]),
+    ('C10', 'scanner-built-eagerly-in-the-constructor', [R('lark/lexer.py', "        self._scanner: Optional[Scanner] = None\n        self._search_scanner: Optional[Scanner] = None\n", "        self._scanner: Optional[Scanner] = None\n        self._search_scanner: Optional[Scanner] = None\n        self._scanner = self._build_scanner()\n")]),
+    ('C18', 'end-of-input-dedents-carry-no-position', [R('lark/indenter.py', "            yield Token.new_borrow_pos(self.DEDENT_type, '', token) if token else Token(self.DEDENT_type, '', 0, 0, 0, 0, 0, 0)", "            yield Token(self.DEDENT_type, '<dedent>')")]),
+    ('C13', 'copy-always-deep-copies-the-value-stack', [R('lark/parsers/lalr_parser_state.py', 'deepcopy(self.value_stack) if deepcopy_values else copy(self.value_stack)', 'deepcopy(self.value_stack)')]),
+    ('C11', 'save-uses-pickle-protocol-2', [R('lark/lark.py', "pickle.dump({'data': data, 'memo': m}, f, protocol=pickle.HIGHEST_PROTOCOL)", "pickle.dump({'data': data, 'memo': m}, f, protocol=2)")]),
+    ('C05', 'symbol-node-priority-computed-with-a-loop', [R('lark/parsers/earley_forest.py', 'node.priority = max(child.priority for child in node.children)', 'node.priority = sorted(child.priority for child in node.children)[-1]')]),
+]
+
+
+def benign(ids, seed):
+    """false-alarm probe: every variant in BENIGN keeps the property; the check must exit 0 on it"""
+    ids = [i.upper() for i in ids]
+    rows = []
+    budget = os.environ.get('VERIF_MUTANT_BUDGET_S', '45')
+    for prop, name, edits in BENIGN:
+        if ids and prop not in ids:
+            continue
+        scratch = tempfile.mkdtemp(prefix='verif-benign-')
+        outdir = tempfile.mkdtemp(prefix='verif-benign-out-')
+        try:
+            shutil.copytree(os.path.join(core.REPO, 'lark'), os.path.join(scratch, 'lark'), ignore=shutil.ignore_patterns('__pycache__'))
+            err = _apply(scratch, edits)
+            if err:
+                rows.append((prop, name, 'NOT-APPLICABLE', err))
+                print('%-4s %-52s %s  %s' % rows[-1])
+                continue
+            env = dict(os.environ, LARK_REPO=scratch, VERIF_OUT_DIR=outdir, VERIF_SEED=str(seed))
+            env.pop('VERIF_REEXECED', None)
+            t0 = time.time()
+            r = subprocess.run([os.path.join(core.VERIF, 'check'), prop, '--tier', 'quick', '--budget', budget], capture_output=True, text=True, env=env, timeout=1800)
+            silent = r.returncode == 0 and 'VIOLATION' not in r.stdout
+            kind = next((l.split(' ', 2)[1] for l in r.stdout.splitlines() if l.startswith('violation kind=')), '')
+            rows.append((prop, name, 'silent' if silent else 'FALSE-ALARM (exit %d)' % r.returncode, '%s in %.0fs' % (kind, time.time() - t0)))
+            if not silent:
+                sys.stdout.write(r.stdout[-1500:] + r.stderr[-600:] + '\n')
+        finally:
+            shutil.rmtree(scratch, ignore_errors=True)
+            shutil.rmtree(outdir, ignore_errors=True)
+        print('%-4s %-52s %s  %s' % rows[-1])
+        sys.stdout.flush()
+    n = sum(1 for r in rows if r[2] == 'silent')
+    print('selftest-benign: %d/%d silent' % (n, len(rows)))
+    if not ids and not os.environ.get('VERIF_OUT_DIR'):
+        with open(os.path.join(core.VERIF, 'evidence', 'selftest-benign.txt'), 'w') as f:
+            f.write('selftest-benign, budget %s s per variant, lark tree %s\n' % (budget, core.lark_tree_digest()[:16]))
+            for r in rows:
+                f.write('%-4s %-52s %s  %s\n' % r)
+            f.write('%d/%d silent\n' % (n, len(rows)))
+    return 0 if n == len(rows) else 1
+
+
 def mutants(ids, seed):
     ids = [i.upper() for i in ids]
     rows = []
